@@ -74,6 +74,32 @@ class C17(scen.WorldProp):
                   "bot": bot, "rhythm": scen.rhythm_cfg("wait", inertia=1.0 if server else 0.5, peal_speed=ps)}
             yield {"k": "world", "scenario": sc, "final_size": cur, "queued": queued, "server": server}
 
+        # a start row that is itself rounds, or a rotation of it, on more bells than the method: it still needs a
+        # tower of its own length (given on the command line of the real main when it has a spelling there)
+        for _ in range(14 if tier == "quick" else 140):
+            stage = rng.randint(3, 12)
+            L = rng.randint(stage + 1, min(16, stage + 5))
+            bells = list(range(1, L + 1))
+            if rng.random() < 0.3:
+                bells = bells[1:stage] + bells[:1] + bells[stage:]
+            N0 = rng.choice([n for n in [4, 5, 6, 8, 10, 12, 14, 16] if n >= 4])
+            final = rng.choice([stage, max(stage, L - 1), L, min(16, L + 1), N0])
+            t0 = 1000.0 + rng.random()
+            events = []
+            if final != N0:
+                events.append([t0 - 0.5, "msg", {"m": "size_change", "size": final}])
+            events.append(call(t0, LOOK_TO))
+            ty = rng.choice(["plainhunt", "pn"])
+            spec = {"type": "plainhunt", "stage": stage, "start_row": "".join(gens.BELLS[b - 1] for b in bells)}
+            if ty == "pn":
+                spec = {"type": "pn", "stage": stage, "method": "x1" if stage % 2 == 0 else gens.BELLS[stage - 1] + ".1",
+                        "bob": None, "single": None, "start_index": 0, "start_row": spec["start_row"]}
+            I = scen.interval(60, max(final, 4))
+            sc = {"start": 999.0, "end": t0 + 3 + 5 * I * (final + 1), "tower_size": N0, "events": events, "on_join": [],
+                  "bot": scen.bot_cfg(spec, up_down_in=True), "rhythm": scen.rhythm_cfg("wait", inertia=0.5, peal_speed=60),
+                  "prefer_main": True}
+            yield {"k": "world", "scenario": sc, "final_size": final, "queued": None, "server": False}
+
         # two touches on towers of different sizes: the second is timed for the new size (rhythm re-initialised)
         for _ in range(15 if tier == "quick" else 150):
             N1, N2 = rng.sample([4, 5, 6, 8, 10, 12], 2)
